@@ -6,6 +6,7 @@ supplied by the driver, default 0 = keep running the current thread) decides who
 code between two points (pyarrow, sqlite, duckdb) runs while its thread holds the baton, so there is
 no real parallelism and one schedule is one execution.
 """
+import sys
 import threading
 import typing
 
@@ -13,7 +14,8 @@ import typing
 class Interleaver:
     """Runs callables as baton-passing threads."""
 
-    def __init__(self, disk, schedule: typing.Sequence[int]):
+    def __init__(self, disk, schedule: typing.Sequence[int], trace_files: typing.Sequence[str] = ()):
+        self.trace_files = tuple(trace_files)  # additionally: a scheduling point at every line of these source files
         self.disk = disk
         self.schedule = list(schedule)
         self.sems: list = []
@@ -49,13 +51,27 @@ class Interleaver:
         self.results = [None] * n
         finished = threading.Semaphore(0)
 
+        def local(frame, event, arg):  # pylint: disable=unused-argument
+            if event == 'line':
+                self.yield_()
+            return local
+
+        def tracer(frame, event, arg):  # pylint: disable=unused-argument
+            # (never inside module-level code: a parked importer would hold the import lock)
+            if event == 'call' and frame.f_code.co_name != '<module>' and frame.f_code.co_filename.endswith(self.trace_files):
+                return local
+            return None
+
         def body(i: int):
             self.sems[i].acquire()
+            if self.trace_files:
+                sys.settrace(tracer)
             try:
                 self.results[i] = ('ok', fns[i]())
             except Exception as err:  # pylint: disable=broad-except
                 self.results[i] = ('exc', f'{type(err).__name__}: {err}'[:300])
             finally:
+                sys.settrace(None)
                 self.done[i] = True
                 nxt = self._pick()
                 if nxt == -1:
